@@ -23,11 +23,12 @@ class GBook:
         order = [(s, c, r) for s in range(self.ns) for r in range(self.h[s]) for c in range(self.w[s])]
         rng.shuffle(order)     # dependency direction is not tied to the position on the sheet
         done = []
+        data_sheet = self.ns > 1 and rng.random() < 0.35       # the last sheet is a pure data sheet: constants only, some of them referenced by nothing
         for pos in order:
             k = rng.random()
             if k < 0.15:
                 pass
-            elif k < 0.45 or len(done) < 2:
+            elif k < 0.45 or len(done) < 2 or (data_sheet and pos[0] == self.ns - 1):
                 self.cells[pos] = rng.choice([1, 2, 3, 5, 7, 10, -4])
             else:
                 self.cells[pos], self.deps[pos] = self.formula(pos[0], done)
